@@ -37,6 +37,10 @@ def tree_plain(d):
     (d / "sub" / "deep" / "x.txt").write_text("nested")
     (d / "empty-dir").mkdir()
     (d / "name with space é.txt").write_text("unicode")
+    (d / "read-only.txt").write_text("ro")
+    os.chmod(str(d / "read-only.txt"), 0o444)
+    (d / "private-dir").mkdir()
+    os.chmod(str(d / "private-dir"), 0o700)
 
 
 def tree_links(d):
@@ -50,10 +54,16 @@ def tree_dangling(d):
     os.symlink("does-not-exist", str(d / "dangling"))
 
 
-TREES = (("plain", tree_plain), ("symlinks", tree_links), ("dangling-symlink", tree_dangling))
+def tree_outward(d):
+    tree_plain(d)
+    os.symlink("/etc/hostname", str(d / "absolute-link"))
+    os.symlink("../../elsewhere/x", str(d / "link-leaving-the-output"))
 
 
-def make(trees=TREES, reduced=False):
+TREES = (("plain", tree_plain), ("symlinks", tree_links), ("dangling-symlink", tree_dangling), ("outward-symlinks", tree_outward))
+
+
+def make(trees=TREES, reduced=False, preset_structure=False):
     def fn(g):
         n0 = E0_NAMES[g.choose("e0name", len(E0_NAMES))]
         p0 = E0_PKGS[g.choose("e0pkg", len(E0_PKGS))]
@@ -85,12 +95,17 @@ def make(trees=TREES, reduced=False):
             for P in (A, B):
                 P.write_tasks(specs)
             rows = []
-            for spec, tss in ((E0, (5, 9)[:nv0]), (E1, (6, 12)[:nv1])):
+            # e.g. a restore of an older archive after a newer run (matters only when a task has two versions)
+            newest_first = g.flag("recorded_newest_first") if max(nv0, nv1) == 2 else False
+            plan = [(E0, (5, 9)[:nv0]), (E1, (6, 12)[:nv1])]
+            if newest_first:
+                plan = [(sp_, tuple(reversed(t_))) for sp_, t_ in plan]
+            for spec, tss in plan:
                 for ts in tss:
                     d = A.add_version(spec.ident, ts, commit=commit, dirty=dirty, files={})
                     tfn(d)
                     rows.append((spec.ident, ts, commit, 1 if dirty else 0))
-            D = "tasks=%s versions=%s tree=%s target=%s latest=%s" % (
+            D = "tasks=%s versions (in recording order)=%s tree=%s target=%s latest=%s" % (
                 ["%s deps=%s" % (s.ident, s.deps) for s in specs], [(r[0], r[1]) for r in rows], tname, target, latest)
             # ---- oracle
             if target is None:
@@ -163,8 +178,12 @@ def make(trees=TREES, reduced=False):
 def spaces(tier):
     goals = ["nothing to archive", "some versions not selected", "shared dependency in the archived closure",
              "root-level task name with a leading hyphen"]
-    sp = [Space("two-experiments-reduced", make(reduced=True), "as below with the second experiment fixed in package p and "
-                "commit/dirty in {NULL/clean, hash/dirty}", depth=8, goals=goals, tiers=("quick",)),
+    sp = [Space("selection", make(trees=TREES[:1], reduced=True), "as 'two-experiments' below with the plain output tree, the second "
+                "experiment fixed in package p and commit/dirty in {NULL/clean, hash/dirty}", depth=8, goals=goals, tiers=("quick",)),
+          Space("output-trees", make(reduced=True), "fixed structure (//p/q:a and //p:b1, one version each, archive everything) x "
+                "4 output tree kinds (plain incl. read-only file and 0700 dir, in-tree symlinks, dangling symlink, absolute / "
+                "outward symlinks) x commit/dirty x --latest", depth=4, tiers=("quick",),
+                preset={"e0name": 0, "e0pkg": 1, "mid": False, "e1_e0": True, "nv0": 1, "nv1": 1, "target": 0}),
           Space("two-experiments", make(), "2 experiments (first one named a | -x | _y, packages root/p/p/q) + optional run_command between "
                 "them, all dependency edges, 0..2 versions each, commit NULL|hash, dirty bit, 3 output tree kinds, target {none, each "
                 "task}, --latest", depth=8, goals=goals, outside=["3+ experiments", "archives from other Conductor versions", "hard links, devices"], tiers=("thorough",))]
@@ -176,12 +195,12 @@ def canaries(tier):
         Canary("all-entries-latest-uses-min",
                lambda: _replace_query("all_entries_latest", "MAX(timestamp)", "MIN(timestamp)"),
                preset={"nv0": 2, "nv1": 2, "latest": True, "target": 0, "tree": 0},
-               space="two-experiments-reduced" if tier == "quick" else "two-experiments"),
+               space="selection" if tier == "quick" else "two-experiments"),
         Canary("closure-stops-at-non-archivable-tasks",
                lambda: rewrite("conductor.task_types.base", "TaskType.traverse",
                                "for dep in task.deps:", "for dep in (task.deps if task.archivable else ()):"),
                preset={"mid": True, "e1_e0": False, "e1_mid": True, "mid_e0": True, "nv0": 1, "nv1": 1, "target": 1, "tree": 0},
-               space="two-experiments-reduced" if tier == "quick" else "two-experiments"),
+               space="selection" if tier == "quick" else "two-experiments"),
     ]
 
 
